@@ -75,7 +75,7 @@ func (caller framerChangedCaller) Call(s *slip.Scope, args slip.List, depth int)
 	if num, ok := self.Get("left").(slip.Fixnum); ok {
 		left = int(num)
 	}
-	w := s.Get("*standard-output*").(io.Writer)
+	w := s.WriterVar("*standard-output*", depth)
 	width, _, err := xterm.GetSize(0)
 	if err != nil || width <= 0 {
 		width = slip.DefaultRightMargin
@@ -138,7 +138,7 @@ func setCursor(w io.Writer, v, h int) {
 
 func drawFrame(s *slip.Scope) {
 	self := s.Get("self").(*flavors.Instance)
-	w := s.Get("*standard-output*").(io.Writer)
+	w := s.WriterVar("*standard-output*", 0)
 	c := self.Any.(*client)
 	var (
 		top  int
